@@ -634,6 +634,8 @@ func main() {
 		{"switches", []string{"Switches.lean"}, genSwitches},
 		{"batcherSrc", []string{"BatcherSrc.lean"}, genBatcherSrc},
 		{"sendBatchSrc", []string{"SendBatchSrc.lean"}, genSendBatchSrc},
+		{"filterSrc", []string{"FilterSrc.lean"}, genFilterSrc},
+		{"marshalSrc", []string{"MarshalSrc.lean"}, genMarshalSrc},
 	}
 	status := map[string]interface{}{}
 	failed := 0
